@@ -130,7 +130,8 @@ PROPS = {
         "rule": 'a case = trace x delay x pps in {None,1,2,10,1e3,u32::MAX,2^32,2^33+7,usize::MAX} x machines x fractions x seed x stop conditions; per case: two runs from a cloned queue, one from a re-parsed trace, three filtered runs and up to three length-bounded runs; non-trivial when at least 2 events were simulated; distinct by hash of all inputs',
         "floors": None,
         "assumptions": COMMON_ASSUMPTIONS + ['no integration delays; traces are time-sorted; network delay <= 1 s', 'event times are compared as exact nanosecond offsets from the earliest trace event'],
-        "stall": 120,
+        "stall": 30,
+        "stall_confirm": 30,
     },
     "C12": {
         "workers": ["c12"],
